@@ -7,7 +7,7 @@ from common import R, Rmat, fl, flmat, max_rel_err
 
 from common import wiring_pre_build as pre_build  # noqa: E402,F401
 
-LEAN_MODULES = ["PyomaVerif.Props.C12", "PyomaVerif.Props.C12Dat", "PyomaVerif.Props.WiringRun", "PyomaVerif.Props.WiringStore", "PyomaVerif.Props.WiringClass", "PyomaVerif.Props.WiringCalls"]
+LEAN_MODULES = ["PyomaVerif.Props.C12", "PyomaVerif.Props.C12Dat", "PyomaVerif.Props.C12Build", "PyomaVerif.Props.WiringRun", "PyomaVerif.Props.WiringStore", "PyomaVerif.Props.WiringClass", "PyomaVerif.Props.WiringCalls"]
 THEOREMS = [
     # call-site wiring of the class layer, regenerated from /repo on every run (translate_wiring.py)
     "PV.WiringRun.C12_run_build_hank",
@@ -42,6 +42,20 @@ THEOREMS = [
     "PV.C12.C12_dat_rank_needed",
     "PV.C12.exA_qr",
     "PV.C12.exB_qr",
+    # build_hank as ONE model function (Model/BuildHank.buildHank: N as a Python int, dispatch on the method string, the
+    # weights 1/N and 1/(Ndat-k) computed IN the model, every exception): op build_hank, streams build_hank[dispatch|short|whole]
+    "PV.C12.C12_dispatch_attrUnc",
+    "PV.C12.C12_dispatch_attrMethod",
+    "PV.C12.C12_dispatch",
+    "PV.C12.buildHank_err_cases",
+    "PV.C12.C17_unc_only_cov_mm",
+    "PV.C12.C12_R_zeroDiv_iff",
+    "PV.C12.C12_R_entry_N",
+    "PV.C12.hankStacks_long",
+    "PV.C12.C12_mm_entry_N",
+    "PV.C12.C12_mm_returns",
+    "PV.C12.C12_short_zeroDiv",
+    "PV.C12.C17_build_factor",
 ]
 RULE = (
     "correspondence: random (channels 1..5, reference subset, br 1..5, length <= 60) records with float or small-integer "
@@ -50,7 +64,12 @@ RULE = (
     "construction. distinct = distinct (method, l, r, br, Ndat) shapes. build_hank[dat-recorded]: np.linalg.qr wrapped, its "
     "argument compared EXACTLY with the model's stacked matrix hankYs (times the float 1/N**0.5), its recorded output R "
     "handed to the model's hankDat and compared EXACTLY (shape and entries) with the returned matrix, for every record "
-    "length (fewer samples than past rows, between past and all rows, more), duplicated / constant reference channels"
+    "length (fewer samples than past rows, between past and all rows, more), duplicated / constant reference channels. "
+    "build_hank[dispatch|short|whole]: the WHOLE function against the model function buildHank (driver scalars a+b*sqrt(N), so "
+    "1/N**0.5 sits inside each stacked factor as in the code): method strings valid and malformed x calc_unc in {False, True, 1}; "
+    "every record length 0..2br+3 (N negative: complex zeros / ValueError / UFuncTypeError; N = 0: ZeroDivisionError; N = 1, 2); "
+    "random records with nb = 0, 1, 2.., > N: same exception CLASS (the two AttributeErrors told apart), same matrix at 1e-12, same "
+    "real/complex dtype class, same second component (None / no finite entry / T at 1e-11), same np.linalg.qr argument (8 ulp)"
 )
 EXTRA_TRUSTED = [
     "np.linalg.qr contract (orthonormal Q, triangular R) for the 'dat' method = PV.C12.QrRec; on every recorded output the "
@@ -133,6 +152,151 @@ def correspondence(ctx):
         if k == 0:
             ctx.sample({"l": l, "r": r, "ref": ref, "p": p, "Ndat": Nd, "Y_row0_head": Y[0, :5].tolist()})
     _corr_dat_recorded(ctx, bh)
+    corr_build_hank(ctx, bh)
+
+
+# ----------------------------------------------------------------------------- build_hank as ONE function (Model/BuildHank)
+_FLAGS = {"off": False, "on": True, "truthy": 1}
+_BAD_METHODS = ["cov", "COV_MM", "cov_mm ", "", "YfYp", "cov_r", "data", "cov_R,dat"]
+
+
+def _exc_kind(e):
+    """class of a raised exception as the model names it (exact type, the two AttributeErrors told apart by their text)"""
+    if type(e) is AttributeError:
+        m = str(e)
+        if m.startswith("Uncertainty calculations are only available"):
+            return "AttributeError:unc"
+        if "is not a valid argument" in m:
+            return "AttributeError:method"
+        return "AttributeError:?"
+    if type(e) is ZeroDivisionError:
+        return "ZeroDivisionError"
+    if type(e) is ValueError:
+        return "ValueError"
+    if isinstance(e, TypeError) and type(e).__name__ == "UFuncTypeError":
+        return "TypeError"
+    return type(e).__name__
+
+
+def _qs(m, N):
+    """matrix of a + b*sqrt(N) (driver scalars QS N) as a float / complex array"""
+    import cmath
+
+    a = np.array(flmat(m["a"]), dtype=float).reshape(m["r"], m["c"])
+    b = np.array(flmat(m["b"]), dtype=float).reshape(m["r"], m["c"])
+    if N >= 0:
+        return a + b * float(N) ** 0.5
+    return a + b * cmath.sqrt(N)
+
+
+def _close(A, B, tol):
+    A, B = np.asarray(A), np.asarray(B)
+    if A.shape != B.shape:
+        return False
+    if A.size == 0:
+        return True
+    return bool(max_rel_err(A, B) <= tol) or (not np.any(A) and not np.any(B))
+
+
+def build_hank_case(ctx, bh, fn, Y, Yref, p, method, flag, nb, key):
+    """one comparison of the WHOLE function: real build_hank (np.linalg.qr wrapped) against the model function buildHank:
+    same exception class, or same Hankel matrix (shape, dtype class real/complex, entries), same second component (None /
+    no finite entry / the factor T), and for the data-driven method the same matrix handed to np.linalg.qr."""
+    import warnings
+
+    real_qr = np.linalg.qr
+    rec = []
+
+    def spy(x, *args, **kw):
+        out = real_qr(x, *args, **kw)
+        rec.append((np.array(x), out))
+        return out
+
+    np.linalg.qr = spy
+    try:
+        with warnings.catch_warnings():
+            warnings.simplefilter("ignore")
+            try:
+                H, T = bh(Y, Yref, p, method, _FLAGS[flag], nb)
+                impl = {"status": "ok"}
+            except Exception as e:  # noqa: BLE001
+                impl = {"status": "error", "exc": _exc_kind(e)}
+    finally:
+        np.linalg.qr = real_qr
+    inp = {"Y": Rmat(np.asarray(Y, float)), "Yref": Rmat(np.asarray(Yref, float)), "p": p, "method": method, "calc_unc": flag, "nb": nb,
+           "R": Rmat(np.real(rec[0][1])) if len(rec) == 1 else None, "Rc": int(rec[0][1].shape[1]) if len(rec) == 1 else None}
+    m = ctx.model("build_hank", **inp)
+    if impl["status"] == "error" or m["status"] == "error":
+        ok = impl == {k: m.get(k) for k in impl}
+        ctx.corr(fn, ok, inp, m, impl, key)
+        ctx.count(f"bh_{fn}_{impl.get('exc', 'ok')}")
+        return
+    N = m["N"]
+    Hm = _qs(m["hank"], N)
+    ok = N == Y.shape[1] - 2 * p - 1 and bool(np.iscomplexobj(H)) == m["cplx"] and _close(H, Hm, 1e-12)
+    if isinstance(m["T"], str):
+        impl_T = "none" if T is None else ("nonfinite" if not np.isfinite(T).any() else "finite")
+        ok = ok and impl_T == m["T"]
+    else:
+        ok = ok and T is not None and bool(np.isfinite(T).all()) and _close(T, _qs(m["T"], N) / np.sqrt(nb * (nb - 1)), 1e-11)
+        impl_T = "factor"
+    if method == "dat":
+        # the argument of np.linalg.qr (Ys.T): one call, same matrix (the model carries 1/N**0.5 = sqrt(N)/N exactly)
+        ok = ok and len(rec) == 1 and m["qrarg"] is not None and _close(rec[0][0], _qs(m["qrarg"], N), 1e-15 * 8)
+    else:
+        ok = ok and len(rec) == 0
+    ctx.corr(fn, bool(ok), inp, {"hank": np.asarray(Hm).tolist() if not m["cplx"] else str(Hm.shape), "T": m["T"] if isinstance(m["T"], str) else "factor"},
+             {"hank": H.tolist() if not np.iscomplexobj(H) else str(H.shape), "T": impl_T}, key)
+    ctx.count(f"bh_{fn}_ok_T_{impl_T}" + ("_complex" if m["cplx"] else ""))
+
+
+def corr_build_hank(ctx, bh, n_dispatch=None, n_short=None, n_whole=None):
+    """build_hank[dispatch]: every method string (the three valid ones and malformed ones) x calc_unc in {False, True, 1};
+    build_hank[short]: every record length 0 .. 2br+3 (N = Ndat-2br-1 negative, zero, one, two) x method x calc_unc;
+    build_hank[whole]: random records, all three methods, calc_unc with nb = 0, 1, 2.. (also nb > N)."""
+    rng = ctx.rng
+
+    def data(l, r, Nd):
+        g = ctx.nprng()
+        if rng.random() < 0.5:
+            Y = g.integers(-6, 7, size=(l, Nd)).astype(float)
+        else:
+            Y = g.standard_normal((l, Nd))
+        ref = rng.sample(range(l), r)
+        return Y, (Y[ref, :] if rng.random() < 0.8 else g.standard_normal((r, Nd)))
+
+    methods = ["cov_mm", "cov_R", "dat"]
+    for k in range(ctx.n(24, 300) if n_dispatch is None else n_dispatch):
+        l = rng.randint(1, 3)
+        r = rng.randint(1, l)
+        p = rng.randint(1, 3)
+        Nd = rng.randint(2 * p + 3, 2 * p + 14)
+        Y, Yref = data(l, r, Nd)
+        method = (methods + [rng.choice(_BAD_METHODS)])[k % 4]
+        flag = ["off", "on", "truthy"][(k // 4) % 3]
+        build_hank_case(ctx, bh, "build_hank[dispatch]", Y, Yref, p, method, flag, rng.choice([2, 3, 100]), (method in methods and method, flag))
+    for k in range(ctx.n(48, 600) if n_short is None else n_short):
+        l = rng.randint(1, 3)
+        r = rng.randint(1, l)
+        p = rng.randint(1, 4)
+        Nd = (k // 3) % (2 * p + 4)
+        Y, Yref = data(l, r, Nd)
+        method = methods[k % 3]
+        flag = "on" if (method == "cov_mm" and rng.random() < 0.4) else "off"
+        build_hank_case(ctx, bh, "build_hank[short]", Y, Yref, p, method, flag, rng.choice([0, 1, 2, 3]), (method, flag, p, Nd))
+    for k in range(ctx.n(24, 400) if n_whole is None else n_whole):
+        l = rng.randint(1, 4)
+        r = rng.randint(1, l)
+        p = rng.randint(1, 4)
+        Nd = rng.randint(2 * p + 2, 2 * p + 40)
+        method = methods[k % 3]
+        flag = "on" if method == "cov_mm" and k % 2 == 0 else ("truthy" if method == "cov_mm" and k % 12 == 3 else "off")
+        nb = rng.choice([0, 1, 2, 2, 3, 3, 4, 5, 7, 100])
+        if flag == "on" and rng.random() < 0.7:  # mostly records with at least one sample per block: the factor itself
+            nb = rng.randint(2, 6)
+            Nd = 2 * p + 1 + nb * rng.randint(1, 6) + rng.randint(0, nb - 1)
+        Y, Yref = data(l, r, Nd)
+        build_hank_case(ctx, bh, "build_hank[whole]", Y, Yref, p, method, flag, nb, (method, flag, l, r, p, Nd, nb if flag == "on" else None))
 
 
 def _corr_dat_recorded(ctx, bh):
